@@ -7,7 +7,7 @@ from tiv.astutil import (assigned_targets, body_walk, call_name, dotted, enclosi
                          guards, names_loaded, norm, short, stores_in, try_context, walk_local)
 from tiv.cfg import may_raise_sync
 from tiv.mutate import M
-from tiv.sem import same, literals, origin, _bindings as sem_bindings
+from tiv.sem import same, literals, tliterals, origin, _bindings as sem_bindings
 
 RULES = {
     "MEMO": "memo safety (shared, rules/common.py): a memoised function in this property's files (or called from them) is a function of its "
@@ -160,13 +160,18 @@ def run(ck, m):
             if not prot:
                 continue
             t, r = prot
-            gm, gr = literals(fn, c), literals(fn, r)
+            is_cm = any((dotted(d) or "").split(".")[-1] == "contextmanager" for d in getattr(fn, "decorator_list", []))     # (there the yield IS the protected region of the caller's `with`)
+            ys_ = [] if is_cm else [y for b_ in t.body for y in walk_local(b_) if isinstance(y, (ast.Yield, ast.YieldFrom))]
+            ck.ob("R1", enclosing_stmt(ys_[0]) if ys_ else st, not ys_,
+                  "the protected region yields: while the generator is suspended the terminal stays modified, and the restoring `finally` only runs when the consumer exhausts or closes the generator "
+                  "(a consumer that stops early, or keeps a reference, leaves the terminal modified indefinitely)", stmt=f"{fn.name}: no yield between modification and restore")
+            gm, gr = tliterals(fn, c), tliterals(fn, r)      # (traced: a guard on a value derived from another condition implies it)
             ck.ob("R3", enclosing_stmt(r), gr <= gm,
                   f"the restore is guarded by {sorted(gr - gm)} which the modification is not: the restore can be skipped after a modification",
                   stmt=f"restore-guard: {short(enclosing_stmt(r), 90)} vs modify {short(st, 60)}")
             o_ = origin(fn, r.args[2]) if len(r.args) >= 3 else None
             for b in ([enclosing_stmt(o_)] if o_ is not None and isinstance(o_, ast.Call) else []):
-                gs = literals(fn, b)
+                gs = tliterals(fn, b)
                 ck.ob("R3", b, gs <= gm,
                       f"the save is guarded by {sorted(gs - gm)} which the modification is not: a modification can happen without a saved original",
                       stmt=f"save-guard: {short(b, 80)} vs modify {short(st, 60)}")
